@@ -256,7 +256,10 @@ def gen_slru(r, cid, nops, opts):
     extra = dict(putprotected=3, segsizes=1, segpeek=2, segpeekmut=2, removelruprob=1, removelruprot=1,
                  clone=opts.get("clone", 1))
     table = profile_table(prof, extra)
-    lines = ["case %d slru pcap=%d qcap=%d %s" % (cid, pcap, qcap, opts.get("variant") or variant(r))]
+    var = opts.get("variant") or variant(r)
+    if "hasher=default" in var:
+        var += " via=%s" % r.pick(["new", "builder", "statbuilder", "setters", "frombuilder"])
+    lines = ["case %d slru pcap=%d qcap=%d %s" % (cid, pcap, qcap, var)]
     has_alt = False
     hot = r.rng(1, U)
     for _ in range(nops):
@@ -306,7 +309,15 @@ def gen_twoq(r, cid, nops, opts):
     prof = r.pick(list(PROFILES))
     extra = dict(listlen=1, iter=opts.get("iter", 2))
     table = profile_table(prof, extra)
-    lines = ["case %d twoq size=%d rr=%s gr=%s %s" % (cid, size, f64bits(rr), f64bits(gr), opts.get("variant") or variant(r))]
+    var = opts.get("variant") or variant(r)
+    if "hasher=default" in var:
+        via = r.pick(["params", "builder", "statbuilder", "setters", "frombuilder", "new", "recent", "ghost"])
+        if via in ("new", "ghost"):
+            rr = 0.25               # these paths use the default recent ratio
+        if via in ("new", "recent"):
+            gr = 0.5                # ... and the default ghost ratio
+        var += " via=%s" % via
+    lines = ["case %d twoq size=%d rr=%s gr=%s %s" % (cid, size, f64bits(rr), f64bits(gr), var)]
     hot = r.rng(1, U)
     aged = Aged(size, int(size * gr))
     for _ in range(nops):
@@ -338,7 +349,10 @@ def gen_arc(r, cid, nops, opts):
     prof = r.pick(list(PROFILES))
     extra = dict(listlen=1, iter=opts.get("iter", 2))
     table = profile_table(prof, extra)
-    lines = ["case %d arc size=%d %s" % (cid, size, opts.get("variant") or variant(r))]
+    var = opts.get("variant") or variant(r)
+    if "hasher=default" in var:
+        var += " via=%s" % r.pick(["new", "builder", "statbuilder", "setters", "frombuilder"])
+    lines = ["case %d arc size=%d %s" % (cid, size, var)]
     hot = r.rng(1, U)
     aged = Aged(size, size)
     for _ in range(nops):
@@ -495,6 +509,21 @@ def gen_ctor_grid():
     for size in (0, 1, 2, 3):
         for h in ("default", "zero"):
             add("arc size=%d keys=u64 hasher=%s" % (size, h), smoke)
+    # every other public way of building the same configurations (default hasher): the model ignores `via=`
+    for via in ("builder", "statbuilder", "setters", "frombuilder"):
+        for p in (0, 1, 2):
+            for q in (0, 1, 3):
+                add("slru pcap=%d qcap=%d keys=u64 hasher=default via=%s" % (p, q, via), smoke)
+        for size in (0, 1, 2, 3):
+            add("arc size=%d keys=u64 hasher=default via=%s" % (size, via), smoke)
+            for rr in ratios:
+                for gr in ratios:
+                    add("twoq size=%d rr=%s gr=%s keys=u64 hasher=default via=%s" % (size, rr, gr, via), smoke)
+    for size in (0, 1, 2, 3, 4, 7, 8):
+        add("twoq size=%d rr=%s gr=%s keys=u64 hasher=default via=new" % (size, f64bits(0.25), f64bits(0.5)), smoke)
+        for x in ratios:
+            add("twoq size=%d rr=%s gr=%s keys=u64 hasher=default via=recent" % (size, x, f64bits(0.5)), smoke)
+            add("twoq size=%d rr=%s gr=%s keys=u64 hasher=default via=ghost" % (size, f64bits(0.25), x), smoke)
     for size in (0, 1, 2, 3, 5):
         for samples in (0, 1, 2, 3):
             for fp in fps:
